@@ -7,7 +7,8 @@ REPLAYERS = {'connection.Connection._send': 'replayers/connection.py',
              'connection.Connection._send_bytes': 'replayers/connection.py',
              'connection.Connection._recv_bytes': 'replayers/connection.py',
              'connection._ConnectionBase.send': 'replayers/connection.py',
-             'connection._ConnectionBase.recv': 'replayers/connection.py'}
+             'connection._ConnectionBase.recv': 'replayers/connection.py',
+             'connection._ConnectionBase.recv_bytes_into': 'replayers/connection.py'}
 
 ASSUMPTIONS = [
     'os.write(h, buf): raises OSError(errno arbitrary) having written nothing, or writes a prefix of length n with '
@@ -236,6 +237,94 @@ def object_contracts(w, C, PROP, by):
     return [send_obj, recv_obj]
 
 
+def into_contract(w, C, PROP, by):
+    """recv_bytes_into(buf, offset): the message lands in the caller's buffer at the offset, or is refused whole"""
+    g = w.classes['g']
+    g.fields.update({'into_lo': IntS, 'into_n': IntS, 'into_calls': IntS, 'into_ok': BoolS})
+    w.cls('Buf', fields={'arr': MapS(IntS, IntS), 'nbytes': IntS})          # a bytes-like, writable buffer (item size 1)
+
+    def mv_slice(ex, args, kw):
+        v, lo, hi = args
+        P = ex.path
+        n = P.read_field(v, 'hi').e - P.read_field(v, 'lo').e
+        a = ex.clamp(lo, n, z3.IntVal(0))
+        b = ex.clamp(hi, n, n)
+        o = SRef(ref('MV'), P.new_id('MV'))
+        P.write_field(o, 'of', P.read_field(v, 'of'))
+        P.write_field(o, 'itemsize', P.read_field(v, 'itemsize'))
+        base = P.read_field(v, 'lo').e
+        P.write_field(o, 'lo', SV(IntS, base + a))
+        P.write_field(o, 'hi', SV(IntS, base + z3.If(b < a, a, b)))
+        return o
+    w.cls('MV', fields={'of': ref('Buf'), 'itemsize': IntS, 'lo': IntS, 'hi': IntS}, methods={
+        'with_enter': lambda ex, a, k: SNone(), 'with_exit': lambda ex, a, k: SNone(),
+        '__len__': lambda ex, a, k: SV(IntS, ex.path.read_field(a[0], 'hi').e - ex.path.read_field(a[0], 'lo').e),
+        '__getslice__': mv_slice})
+
+    def ext_mv(ex, args, kw):
+        b = args[0]
+        if not (isinstance(b, SRef) and b.shape.cls == 'Buf'):
+            return b
+        P = ex.path
+        o = SRef(ref('MV'), P.new_id('MV'))
+        P.write_field(o, 'of', b)
+        P.write_field(o, 'itemsize', mk_int(1))
+        P.write_field(o, 'lo', mk_int(0))
+        P.write_field(o, 'hi', P.read_field(b, 'nbytes'))
+        return o
+
+    def bio_seek(ex, args, kw):
+        ex.path.write_field(args[0], 'pos', coerce(ex.path, args[1], IntS))
+        return args[1]
+
+    def bio_readinto(ex, args, kw):
+        """BytesIO.readinto(view): copies min(remaining, len(view)) bytes from the current position into the view"""
+        bio, view = args
+        P = ex.path
+        pos, ln = P.read_field(bio, 'pos').e, P.read_field(bio, 'len').e
+        lo, hi = P.read_field(view, 'lo').e, P.read_field(view, 'hi').e
+        room = hi - lo
+        n = z3.If(ln - pos < room, ln - pos, room)
+        n = z3.If(n < 0, 0, n)
+        buf = P.read_field(view, 'of')
+        arr = P.read_field(buf, 'arr')
+        src = P.read_field(bio, 'arr')
+        na = arr.shape.fresh('filled')
+        k = z3.Int(fresh_name('k'))
+        P.assume(z3.ForAll([k], z3.Select(na.comps[0], k) == z3.If(z3.And(k >= lo, k < lo + n),
+                                                                      z3.Select(src.comps[0], pos + (k - lo)),
+                                                                      z3.Select(arr.comps[0], k))))
+        P.write_field(buf, 'arr', na)
+        P.write_field(bio, 'pos', SV(IntS, pos + n))
+        gset(ex, 'into_lo', SV(IntS, lo))
+        gset(ex, 'into_n', SV(IntS, n))
+        gset(ex, 'into_calls', SV(IntS, gget(ex, 'into_calls').e + 1))
+        gset(ex, 'into_ok', SV(BoolS, z3.And(pos == 0, P.read_field(view, 'itemsize').e == 1)))
+        return SV(IntS, n)
+    w.classes['BytesIO'].methods.update({'seek': bio_seek, 'readinto': bio_readinto})
+    w.contracts['connection.Connection._recv_bytes'] = by['connection.Connection._recv_bytes']
+    n = 'ite(stream_hdr(old(g.rpos)) > 0, stream_hdr(old(g.rpos)), 0)'
+    return Contract(
+        'connection._ConnectionBase.recv_bytes_into', prop=PROP, params={'self': C, 'buf': ref('Buf'), 'offset': IntS},
+        externals={'builtins.memoryview': ext_mv},
+        requires={'wf': 'g.rpos >= 0 and g.send >= g.rpos and allocated(buf) and buf.nbytes >= 0 and g.into_calls == 0'},
+        modifies=['g.rpos', 'self._readable', 'self._handle', 'buf.arr', 'g.into_lo', 'g.into_n', 'g.into_calls', 'g.into_ok',
+                  'BytesIO.pos'],
+        returns=IntS,
+        ensures={
+            'whole_message_lands_at_the_offset': 'result == %s and g.into_calls == 1 and g.into_ok and g.into_lo == offset '
+                                                 'and g.into_n == result and g.rpos == old(g.rpos) + 4 + result' % n,
+            'only_if_it_fits_behind_the_offset': '0 <= offset and offset + result <= buf.nbytes',
+            'only_on_an_open_readable_connection': 'old(self._handle) is not None and old(self._readable)',
+        },
+        raises={'ValueError': {'bad_offset_rejected_before_any_io': '(offset < 0 or offset > buf.nbytes) and g.rpos == old(g.rpos) '
+                                                                    'and g.into_calls == 0'},
+                'BufferTooShort': {'only_when_the_message_does_not_fit_behind_the_offset':
+                                   'buf.nbytes < offset + %s and g.into_calls == 0' % n},
+                'OSError': {'nothing_stored': 'g.into_calls == 0'}, 'EOFError': {'nothing_stored': 'g.into_calls == 0'}},
+    )
+
+
 def build(w):
     w.cls('g', fields={'wire': MapS(IntS, IntS), 'wlen': IntS, 'stream': MapS(IntS, IntS),
                        'rpos': IntS, 'send': IntS})
@@ -277,12 +366,14 @@ def build(w):
         loops={0: {'inv': {
             'remaining': '(size >= 0 and 0 <= remaining and remaining <= size) or (size < 0 and remaining == size)',
             'consumed': 'g.rpos == old(g.rpos) + size - remaining and g.rpos <= g.send',
-            'collected': 'fresh(buf) and buf.len == size - remaining and stream_is(old(g.rpos), value(buf))',
+            'collected': 'fresh(buf) and buf.len == size - remaining and buf.pos == buf.len and stream_is(old(g.rpos), value(buf))',
             'handle': 'handle == self._handle',
         }, 'modifies': ['g.rpos', 'buf.arr', 'buf.len', 'buf.pos']}},
         ensures={
             'exactly_size_bytes_consumed': 'g.rpos == old(g.rpos) + ite(size > 0, size, 0) and g.rpos <= g.send',
             'returned_bytes_are_the_stream': 'fresh(result) and result.len == ite(size > 0, size, 0) and stream_is(old(g.rpos), value(result))',
+            # (tell() after the call is the number of bytes received: recv_bytes_into relies on it)
+            'position_at_the_end': 'result.pos == result.len',
         },
         raises={
             'EOFError': {'clean_end_of_stream': 'g.rpos == old(g.rpos) and g.rpos == g.send and size > 0'},
@@ -317,7 +408,8 @@ def build(w):
                                                       'and g.rpos == old(g.rpos) + 4)',
             'within_stream': 'g.rpos <= g.send',
             'whole_message_returned': 'implies(result is not None, fresh(val(result)) and (maxsize is None or n <= maxsize) and '
-                                      'val(result).len == ite(n > 0, n, 0) and g.rpos == old(g.rpos) + 4 + ite(n > 0, n, 0) '
+                                      'val(result).len == ite(n > 0, n, 0) and val(result).pos == val(result).len and '
+                                      'g.rpos == old(g.rpos) + 4 + ite(n > 0, n, 0) '
                                       'and stream_is(old(g.rpos) + 4, value(val(result))))',
         },
         raises={'EOFError': {'t': 'g.rpos == g.send'},
@@ -405,7 +497,7 @@ def build(w):
         raises={'OSError': {'t': 'True'}, 'EOFError': {'t': 'True'}},
     )
     by = {c.qualname: c for c in (send_bytes_, recv_bytes_)}
-    return [send, recv, send_bytes_, recv_bytes_, pub_send, pub_recv, lem_send, lem_recv] + object_contracts(w, C, PROP, by)
+    return [send, recv, send_bytes_, recv_bytes_, pub_send, pub_recv, lem_send, lem_recv] + object_contracts(w, C, PROP, by) + [into_contract(w, C, PROP, by)]
 
 MANIFEST_ENTRY = {
     'text': 'Proof (unbounded, loop invariants): Connection._send writes every byte of the buffer exactly once, in order, after '
@@ -419,8 +511,10 @@ MANIFEST_ENTRY = {
             'message boundaries for consecutive messages are two proof scripts over those contracts (induction step).  The object '
             'level: send(obj) pickles once and puts exactly that pickle on the wire as one framed message, only on an open '
             'writable connection; recv() hands exactly the bytes of the next message to the unpickler, once, and consumes '
-            'exactly that message.',
-    'note': 'Kernel FIFO delivery, struct.pack/unpack inverse and memoryview byte semantics are assumed; recv_bytes_into, '
-            'poll/wait and the Windows classes are not under contract; pickle itself is an assumed contract.  When only a loop-invariant '
+            'exactly that message.  recv_bytes_into(buf, offset), for byte buffers: the whole next message lands in the '
+            'buffer exactly at the offset (nothing else is written) and its length is returned, only if it fits behind the '
+            'offset; otherwise BufferTooShort is raised with nothing stored; a bad offset is rejected before any I/O.',
+    'note': 'Kernel FIFO delivery, struct.pack/unpack inverse and memoryview byte semantics are assumed; poll/wait and '
+            'the Windows classes are not under contract; recv_bytes_into is proved for buffers of item size 1; pickle itself is an assumed contract.  When only a loop-invariant '
             'obligation fails, a bounded search (messages of 0..5 bytes, <= 4 short operations) looks for a failing input on the real code.',
 }
